@@ -20,9 +20,9 @@ from ..seams.simfs import SimFS, patched_open
 from ..seams.simaddr import SimAddresses
 from ..seams import stepclock
 
-LABELS = ["a", "b", "c", "d", "e", "A", "B", "x", "y", "Cc", "cc"]
+LABELS = ["a", "b", "c", "d", "e", "A", "B", "x", "y", "Cc", "cc", "Gie\u00dfen", "gie\u00dfen"]   # the last two: lower() and casefold() disagree
 
-OPS = ["append", "append", "insert", "extend_list", "extend_treelist", "iadd", "add", "setitem", "setslice_list", "setslice_treelist",
+OPS = ["append", "append", "append_locked", "insert", "extend_list", "extend_treelist", "iadd", "add", "setitem", "setslice_list", "setslice_treelist",
        "read_data", "read_path", "read_file", "new_tree", "new_tree_seed_node", "new_tree_from_tree", "pop", "remove", "delitem", "construct", "migrate", "reconstruct",
        "update_ns", "getslice", "ta_add_foreign", "ta_add", "ta_merge_foreign", "ta_merge_foreign", "new_tree_foreign_ns",
        "m_new_sequence", "m_setitem", "m_setitem_foreign", "m_migrate", "m_reconstruct", "m_from_dict",
@@ -55,7 +55,7 @@ class C11(Machine):
             steps.append({"op": rng.choice(OPS), "l": rng.randrange(100), "l2": rng.randrange(100), "i": rng.randrange(100), "j": rng.randrange(100),
                           "labels": labs, "shape": rng.choice(["binary", "poly", "caterpillar"]), "strategy": rng.choice(["migrate", "migrate", "add"]),
                           "n": rng.randint(0, 3), "unify": rng.random() < 0.8, "ns": rng.randrange(100), "flag": rng.random() < 0.5,
-                          "tseed": rng.getrandbits(30)})
+                          "tseed": rng.getrandbits(30), "shared_foreign": rng.random() < 0.4})
         cfg = {"cs": [rng.random() < 0.3, rng.random() < 0.5, False], "attached": rng.random() < 0.5, "addr_seed": rng.getrandbits(32),
                "init_labels": [rng.sample(LABELS[:5], rng.randint(0, 4)) for _ in range(3)]}
         return {"config": cfg, "initial": {}, "steps": steps}
@@ -69,7 +69,11 @@ class C11(Machine):
         import random
         r = random.Random(st["tseed"] + k)
         labs = list(st["labels"])
-        ns = dendropy.TaxonNamespace(labs, is_case_sensitive=True)
+        if st.get("shared_foreign"):
+            # one foreign namespace for the whole history: successive imports bring the same Taxon objects again
+            ns = self.foreign
+        else:
+            ns = dendropy.TaxonNamespace(labs, is_case_sensitive=True)
         spec = gen.tree_spec(r, labs, st["shape"], "int")
         t = gen.build_tree(dendropy, spec, ns, is_rooted=True)
         return t
@@ -84,6 +88,7 @@ class C11(Machine):
         if cfg["attached"]:
             self.ds.attach_taxon_namespace(self.nss[0])
         self.removed = []
+        self.foreign = dendropy.TaxonNamespace(LABELS, is_case_sensitive=True, label="F")
         clock = stepclock.get_clock()
         names = []
         imported = False
@@ -138,8 +143,9 @@ class C11(Machine):
             holder, old = it[0], it[1]
             t = holder.taxon
             if members_before is not None and len(it) > 2 and it[2] in members_before:
-                if t is None or id(t) != it[2]:
-                    rec.violation("TAXON_CHANGED", {"op": op}, "%s: an item already on a member taxon (%r) was moved to another taxon" % (op, old))
+                # it stays, or (label unification is documented to re-map members too) moves to a member with an equal label
+                if t is None or (id(t) != it[2] and not ((t.label == old) if cs else (str(t.label).lower() == str(old).lower()))):
+                    rec.violation("TAXON_CHANGED", {"op": op}, "%s: an item already on a member taxon (%r) was moved to a taxon with another label" % (op, old))
                     raise StopRun()
                 continue
             if t is None:
@@ -192,6 +198,37 @@ class C11(Machine):
                 self.removed.append(L[idx])
                 L[idx] = t
                 st = dict(st, strategy="migrate")
+            if st["strategy"] == "migrate":
+                self._label_rule(rec, op, items, L.taxon_namespace, mb_L)
+            return "imported"
+        if op == "append_locked":
+            # fault: the list's namespace is locked while a tree is brought in; once unlocked the same call must work
+            t = self._foreign_tree(dict(st, shared_foreign=False))
+            items = self._items([t])
+            ns = L.taxon_namespace
+            ns.is_mutable = False
+            rec.fault("namespace_locked_during_import")
+            refused = False
+            try:
+                L.append(t, taxon_import_strategy=st["strategy"])
+            except dperror.ImmutableTaxonNamespaceError:
+                refused = True
+            finally:
+                ns.is_mutable = True
+            if refused:
+                if any(x is t for x in L):
+                    rec.violation("CLOSURE", {"op": op, "what": "refused_but_added"}, "append refused the tree but the list holds it")
+                    raise StopRun()
+                own = t.taxon_namespace
+                for nd in rawtree.raw_nodes(t):
+                    if nd.taxon is not None and (own is None or nd.taxon not in own):
+                        rec.violation("CLOSURE", {"op": op, "what": "refused_tree_inconsistent"},
+                                      "a tree refused by a locked namespace is left referencing taxon %r outside its own namespace" % nd.taxon.label)
+                        raise StopRun()
+                rec.probe("import_refused_then_retried")
+                items = self._items([t])
+                mb_L = set(id(x) for x in L.taxon_namespace)
+                L.append(t, taxon_import_strategy=st["strategy"])
             if st["strategy"] == "migrate":
                 self._label_rule(rec, op, items, L.taxon_namespace, mb_L)
             return "imported"
